@@ -5,12 +5,16 @@
 // Sub `hostile` is built twice: target c13_hostile_fuzz (libFuzzer, bytes -> scenario by decodeBytes) and target
 // c13_hostile_rc (rapidcheck: token-level generator; also the sub that replays text regression files).
 //
-// Ops:  cfg fe tree echo quiet close passes stale | raw b... | lit k | num v | pad n byte | seg | cut pos
+// Ops:  cfg fe tree echo quiet close passes stale log | raw b... | lit k | num v | pad n byte | seg | cut pos | api a | apiat pos a
 //   fe     0 fake Connection, 1 Telnetd, 2 TcpRpc          tree   0..3, see buildTree()
 //   echo/quiet  session options of the fake front end      close  see Rig::closeAndDrain()
 //   passes 1..3 loop passes after every segment            stale  fake: keep feeding after endSession() took effect
 //   raw/lit/num/pad append to the byte stream; `seg` puts a segment boundary at the current end of the stream,
 //   `cut pos` at an absolute offset (libFuzzer inputs).
+//   log    1 = a log channel is installed for the case (the terminal's log lines about client input get formatted)
+//   api a  segment boundary here, and between the two segments the APPLICATION takes a directory node away
+//          (Rig::apiAction: deleteNode / umountNode / both of one of the tree's directories); `apiat pos a` the same at an
+//          absolute offset (libFuzzer inputs: the top 4 bits of a 16-bit cut position)
 #define VERIF_MAIN
 #include "common.h"
 #include <algorithm>
@@ -20,9 +24,9 @@ using namespace c13;
 
 namespace {
 
-enum { CFG, RAW, LIT, NUM, PAD, SEG, CUT, NOPS };
-const std::vector<const char*> kOpNames = {"cfg", "raw", "lit", "num", "pad", "seg", "cut"};
-const std::vector<int> kArity = {7, 8, 1, 1, 2, 0, 1};
+enum { CFG, RAW, LIT, NUM, PAD, SEG, CUT, API, APIAT, NOPS };
+const std::vector<const char*> kOpNames = {"cfg", "raw", "lit", "num", "pad", "seg", "cut", "api", "apiat"};
+const std::vector<int> kArity = {8, 8, 1, 1, 2, 0, 1, 1, 2};
 
 #define IAC "\xff"
 struct Lit { const char *p; size_t n; };
@@ -39,6 +43,8 @@ const Lit kLits[] = {
   /*80*/ L(IAC "\xfa\x1f"), L(IAC "\xfa\x1f\x00\x50\x00\x18" IAC "\xf0"), L(IAC "\xfa\x1f" "x" IAC "\xf0"), L(IAC "\xfa\x1f" IAC "\xf0"), L(IAC "\xfa\x18\x00" "vt100" IAC "\xf0"),
   /*85*/ L(IAC "\xfa\x1f\x00\x50" IAC IAC "\x00\x18" IAC "\xf0"), L(IAC "\xfa\x1f\x00\x50\x00"), L(IAC "\xf4"), L(IAC "\xee"), L("\0"),
   /*90*/ L("exit\r\n"), L("history\r\n"), L("!!\r\n"), L("!0\r\n"), L("!-1\r\n"), L("p a b\r\n"), L("tree\r\n"), L("cd d\r\n"), L("ls\r\n"), L("d/self/up/d/q"),
+  /*100*/ L("%s"), L("%n"), L("%5c"), L("%%"), L("%ld"), L("%*d"), L("%s%s%s%s%s%s%s%s"), L("%n%n%n%n"), L("/rmd"), L("up/rmd"),
+  /*110*/ L("../rmd"), L("./q"), L("./"), L("sub/r"), L("%x%x%x%x%s"), L("%.3f"), L("x"), L("cd d\r\n"), L("cd d/sub\r\n"), L("cd c0/c1/c2\r\n"),
 };
 const int kNLits = sizeof kLits / sizeof kLits[0];
 #undef L
@@ -50,27 +56,31 @@ const int kNNums = sizeof kNums / sizeof kNums[0];
 const size_t kMaxStream = 64u << 10;
 
 struct Plan {
-  int fe = FE_FAKE, tree = 1, close = 0, passes = 2; bool echo = true, quiet = false, stale = false;
+  int fe = FE_FAKE, tree = 1, close = 0, passes = 2; bool echo = true, quiet = false, stale = false, log = false;
   std::string stream; std::vector<size_t> cuts;
+  std::vector<std::pair<size_t, int>> actions;   // (offset in the stream, Rig::apiAction code): run after the segment that ends there
 };
 
 Plan build(const Scenario &s) {
-  Plan p; std::vector<int64_t> cutreq;
+  Plan p; std::vector<int64_t> cutreq; std::vector<std::pair<int64_t, int>> actreq;
   auto room = [&](size_t n) { return p.stream.size() + n <= kMaxStream; };
   for (auto &op : s.ops) {
     switch (op.code) {
       case CFG: p.fe = (int)op.in(0, 0, NFE - 1); p.tree = (int)op.in(1, 0, 3); p.echo = op.in(2, 0, 1); p.quiet = op.in(3, 0, 1);
-                p.close = (int)op.in(4, 0, 3); p.passes = (int)op.in(5, 1, 3); p.stale = op.in(6, 0, 1); break;
+                p.close = (int)op.in(4, 0, 3); p.passes = (int)op.in(5, 1, 3); p.stale = op.in(6, 0, 1); p.log = op.in(7, 0, 1); break;
       case RAW: if (room(op.a.size())) for (auto v : op.a) p.stream += (char)(uint8_t)v; break;
       case LIT: { const Lit &l = kLits[op.in(0, 0, kNLits - 1)]; if (room(l.n)) p.stream.append(l.p, l.n); break; }
       case NUM: { std::string t = std::to_string((long long)op.arg(0)); if (room(t.size())) p.stream += t; break; }
       case PAD: { size_t n = (size_t)op.in(0, 0, 5000); if (room(n)) p.stream.append(n, (char)(uint8_t)op.arg(1)); break; }
       case SEG: if (!p.stream.empty()) p.cuts.push_back(p.stream.size()); break;
       case CUT: cutreq.push_back(op.arg(0)); break;
+      case API: if (!p.stream.empty()) p.cuts.push_back(p.stream.size()); p.actions.push_back({p.stream.size(), (int)op.in(0, 0, 15)}); break;
+      case APIAT: cutreq.push_back(op.arg(0)); actreq.push_back({op.arg(0), (int)op.in(1, 0, 15)}); break;
       default: break;
     }
   }
   for (auto v : cutreq) { Op o; o.a = {v}; size_t c = (size_t)o.in(0, 0, (int64_t)p.stream.size()); p.cuts.push_back(c); }
+  for (auto &a : actreq) { Op o; o.a = {a.first}; p.actions.push_back({(size_t)o.in(0, 0, (int64_t)p.stream.size()), a.second}); }
   std::sort(p.cuts.begin(), p.cuts.end());
   p.cuts.erase(std::unique(p.cuts.begin(), p.cuts.end()), p.cuts.end());
   while (!p.cuts.empty() && p.cuts.back() >= p.stream.size()) p.cuts.pop_back();
@@ -95,6 +105,7 @@ void buildTree(Rig &r, int variant) {
     for (int i = 0; i < 10; ++i) {
       NodeToken c = t.createDirNode("chain");
       t.mountNode(prev, c, "c" + std::to_string(i));
+      if (i == 0 || i == 1 || i == 2 || i == 5 || i == 9) r.dirs.push_back({c, prev, "c" + std::to_string(i)});
       if (i == 0) c0 = c;
       prev = c;
     }
@@ -110,7 +121,9 @@ void buildTree(Rig &r, int variant) {
   NodeToken sub = t.createDirNode("");
   t.mountNode(d, sub, "sub");
   t.mountNode(sub, r.mkProbe(2, "r\r\n"), "r");
-  t.mountNode(root, t.createDirNode("empty"), "e");
+  NodeToken e = t.createDirNode("empty");
+  t.mountNode(root, e, "e");
+  r.dirs.push_back({d, root, "d"}); r.dirs.push_back({sub, d, "sub"}); r.dirs.push_back({e, root, "e"}); r.dirs.push_back({d, d, "self"});
   NodeToken gone = r.mkProbe(4);
   t.mountNode(root, gone, "gone");
   t.deleteNode(gone);
@@ -126,6 +139,7 @@ void buildTree(Rig &r, int variant) {
   if (bad && r.rig_err.empty()) r.rig_err = "an invalid mount / umount / delete of a node was accepted";
   if (variant == 1) return;
   NodeToken v = tbox::terminal::AddDirNode(t, root, "v", "values");
+  r.dirs.push_back({v, root, "v"});
   tbox::terminal::AddFuncNode(t, v, "iv", r.iv, -5, 100);
   tbox::terminal::AddFuncNode(t, v, "bv", r.bv);
   tbox::terminal::AddFuncNode(t, v, "sv", r.sv);
@@ -169,22 +183,27 @@ std::string runHostile(const Scenario &scn, CaseInfo &info) {
   Plan p = build(scn);
   Rig r;
   r.init();
+  if (p.log) r.enableLog();
   buildTree(r, p.tree);
   std::string phase = "session start";
   size_t nseg = p.cuts.size() + 1;
-  bool exact_fill = false;
+  bool exact_fill = false, input_after_api = false;
+  auto runActions = [&](size_t pos) { for (auto &a : p.actions) if (a.first == pos) r.apiAction(a.second); };
   try {
     std::string e = r.start(p.fe, (p.echo ? TerminalInteract::kEnableEcho : 0u) | (p.quiet ? TerminalInteract::kQuietMode : 0u));
     if (!e.empty()) { r.abandon(); return e; }
     size_t at = 0, prev_len = 0;
+    runActions(0);
     for (size_t k = 0; k < nseg; ++k) {
       size_t end = k < p.cuts.size() ? p.cuts[k] : p.stream.size();
       phase = "segment " + std::to_string(k) + " of " + std::to_string(nseg);
       bool last = k + 1 == nseg;
       if (k == 1 && end - at == 2 * prev_len && prev_len > 0) exact_fill = true;
       prev_len = end - at;
+      if (end > at && r.api_deletes + r.api_umounts > 0) input_after_api = true;
       r.feed(p.stream.substr(at, end - at), (last && p.close == 3) ? 0 : p.passes, p.stale);
       at = end;
+      if (end > 0) { phase = "application deletes / umounts a directory after segment " + std::to_string(k); runActions(end); }
     }
     phase = "close and drain";
     r.closeAndDrain(p.close);
@@ -218,23 +237,34 @@ std::string runHostile(const Scenario &scn, CaseInfo &info) {
   info.cls_if(out.find("has been deleted") != std::string::npos, "deleted_node_reached");
   info.cls_if(r.stale_feeds > 0, "fed_after_endSession");
   info.cls_if(p.close == 3, "closed_without_loop_pass");
+  info.cls_if(p.log, "log_channel_installed");
+  info.cls_if(p.log && r.log_records > 0, "log_records_formatted");
+  info.cls_if(p.stream.find('%') != std::string::npos, "has_percent");
+  info.cls_if(r.api_deletes > 0, "application_deleted_a_directory");
+  info.cls_if(r.api_umounts > 0, "application_umounted_a_directory");
+  info.cls_if(input_after_api, "input_after_directory_was_taken_away");
   info.nontrivial = ewt || subneg;
   return "";
 }
 
 // libFuzzer bytes -> scenario: byte 0 selects front end and tree, byte 1 the options; the LAST byte is the number of
-// cuts n (mod 8), the 2n bytes before it are big-endian cut positions; everything in between is the client's stream.
+// cuts n (mod 8), the 2n bytes before it are big-endian cut positions (low 12 bits; the top 4 bits, if not 0, are an
+// application action performed at that cut); everything in between is the client's stream.
 Scenario decodeBytes(const uint8_t *d, size_t n) {
   Scenario s;
   uint8_t b0 = n > 0 ? d[0] : 0, b1 = n > 1 ? d[1] : 0x15;
-  { Op o; o.code = CFG; o.a = {b0 % 3, (b0 / 3) % 4, b1 & 1, (b1 >> 1) & 1, (b1 >> 2) & 3, 1 + ((b1 >> 4) & 3) % 3, (b1 >> 6) & 1}; s.ops.push_back(o); }
+  { Op o; o.code = CFG; o.a = {b0 % 3, (b0 / 3) % 4, b1 & 1, (b1 >> 1) & 1, (b1 >> 2) & 3, 1 + ((b1 >> 4) & 3) % 3, (b1 >> 6) & 1, (b1 >> 7) & 1}; s.ops.push_back(o); }
   if (n <= 2) return s;
   d += 2; n -= 2;
   size_t ncut = d[n - 1] % 8, body = n - 1;
   while (ncut * 2 > body) --ncut;
   body -= ncut * 2;
   if (body) { Op o; o.code = RAW; o.a.assign(d, d + body); s.ops.push_back(std::move(o)); }
-  for (size_t k = 0; k < ncut; ++k) { Op o; o.code = CUT; o.a = {(int64_t)(d[body + 2 * k] << 8 | d[body + 2 * k + 1])}; s.ops.push_back(o); }
+  for (size_t k = 0; k < ncut; ++k) {
+    int v = d[body + 2 * k] << 8 | d[body + 2 * k + 1];
+    Op o; if (v >> 12) { o.code = APIAT; o.a = {v & 0x0fff, v >> 12}; } else { o.code = CUT; o.a = {v & 0x0fff}; }
+    s.ops.push_back(o);
+  }
   return s;
 }
 
@@ -248,10 +278,13 @@ Scenario expandHostile(uint64_t seed) {
   Scenario sc; auto &v = sc.ops;
   auto mk = [&v](int code, std::vector<int64_t> a) { Op o; o.code = code; o.a = std::move(a); v.push_back(std::move(o)); };
   int fe = (int)r.pick({{3, FE_FAKE}, {4, FE_TELNET}, {3, FE_RPC}});
-  mk(CFG, {fe, r.pick({{1, 0}, {3, 1}, {4, 2}, {1, 3}}), r.rng(0, 1), r.pick({{4, 0}, {1, 1}}), r.pick({{4, 0}, {2, 1}, {1, 2}, {3, 3}}), r.rng(1, 3), r.rng(0, 1)});
+  int tree = (int)r.pick({{1, 0}, {3, 1}, {4, 2}, {2, 3}});
+  mk(CFG, {fe, tree, r.rng(0, 1), r.pick({{4, 0}, {1, 1}}), r.pick({{4, 0}, {2, 1}, {1, 2}, {3, 3}}), r.rng(1, 3), r.rng(0, 1), r.rng(0, 1)});
+  auto txt = [&](const char *t) { std::vector<int64_t> b; for (const char *c = t; *c; ++c) b.push_back((unsigned char)*c); mk(RAW, b); };
   auto enter = [&] { mk(LIT, {r.pick({{5, 0}, {3, 1}, {1, 2}, {1, 3}})}); };
   auto word = [&] {
-    switch (r.pick({{6, 0}, {5, 1}, {2, 2}, {2, 3}, {1, 4}})) {
+    switch (r.pick({{6, 0}, {5, 1}, {2, 2}, {2, 3}, {1, 4}, {3, 5}})) {
+      case 5: mk(LIT, {r.pick({{5, r.rng(100, 107)}, {1, 114}, {1, 115}})}); if (r.chance(1, 3)) mk(LIT, {r.rng(100, 107)}); break;   // printf conversions
       case 0: mk(LIT, {r.rng(14, 21)}); break;                 // built-in command names
       case 1: mk(LIT, {r.rng(22, 45)}); break;                 // node names of the trees
       case 2: mk(LIT, {r.pick({{2, 11}, {2, 12}, {1, 13}, {2, 99}})}); break;
@@ -299,7 +332,7 @@ Scenario expandHostile(uint64_t seed) {
     if (r.chance(1, 2)) mk(LIT, {0});
   }
   for (int i = 0; i < nlines; ++i) {
-    int kind = (int)r.pick({{8, 0}, {3, 1}, {2, 2}, {3, 3}, {2, 4}, {2, 5}, {2, 6}, {1, 7}, {2, 8}});
+    int kind = (int)r.pick({{8, 0}, {3, 1}, {2, 2}, {3, 3}, {2, 4}, {2, 5}, {2, 6}, {1, 7}, {2, 8}, {tree ? 4 : 0, 9}});
     switch (kind) {
       case 0: { word(); int na = (int)r.rng(0, 3); for (int k = 0; k < na; ++k) { mk(LIT, {4}); if (r.chance(1, 3)) path(); else word(); } break; }
       case 1: ref(); break;
@@ -309,8 +342,22 @@ Scenario expandHostile(uint64_t seed) {
       case 5: { mk(LIT, {r.rng(6, 7)}); word(); if (r.chance(2, 3)) mk(LIT, {r.rng(6, 7)}); break; }
       case 6: { int n = (int)r.rng(1, 8); for (int k = 0; k < n; ++k) mk(LIT, {r.rng(49, 69)}); if (r.chance(1, 2)) word(); break; }   // keys
       case 7: mk(LIT, {r.pick({{3, 19}, {1, 20}, {2, 38}, {2, 90}})}); break;
+      case 9: {   // the session changes into a directory, the application (or a command) takes it or an ancestor away,
+                  // then names relative to the current directory are resolved
+        static const char *const kIn12[] = {"d", "d/sub", "e", "d/self", "v", "d/self/sub", "d/up/d"};
+        static const char *const kIn3[] = {"c0", "c0/c1", "c0/c1/c2", "c0/c1/c2/c3/c4/c5", "c0/c1/c2/c3/c4/c5/c6/c7/c8/c9", "c0/c1/c2/c3"};
+        const char *where = tree == 3 ? kIn3[r.rng(0, 5)] : kIn12[r.rng(0, 6)];
+        if (r.chance(3, 4)) txt("cd ");
+        txt(where); enter();
+        if (tree == 2 && r.chance(1, 3)) { mk(LIT, {r.rng(108, 110)}); enter(); if (r.chance(1, 2)) mk(SEG, {}); }
+        else mk(API, {r.rng(1, 15)});
+        static const char *const kRel[] = {"q", "r", "ls x", "cd x", "help q", "tree sub", "./q", "ls", "pwd", "cd ..", "..", "tree", "ls ./", "sub/r", "x", "c3", "cd sub", "help .", "tree .", "ls q", "iv 1", "../p", "cd ../.."};
+        int n = (int)r.rng(1, 4);
+        for (int k = 0; k < n; ++k) { txt(kRel[r.rng(0, 22)]); if (k + 1 < n) enter(); }
+        break; }
       default: break;   // blank line
     }
+    if (r.chance(1, 15)) mk(API, {r.rng(1, 15)});
     if (fe == FE_TELNET ? r.chance(1, 2) : r.chance(1, 8)) telnet();
     if (r.chance(1, 12)) { int n = (int)r.rng(1, 12); std::vector<int64_t> b; for (int k = 0; k < n; ++k) b.push_back(r.rng(0, 255)); mk(RAW, b); }
     if (r.chance(1, 25)) mk(PAD, {r.pick({{2, r.rng(1, 40)}, {1, r.rng(200, 1100)}, {1, r.rng(1020, 1030)}}), r.pick({{2, 'a'}, {1, ' '}, {1, '/'}, {1, ';'}, {1, 0xff}, {1, 0x1b}})});
